@@ -24,7 +24,7 @@ func runC16(c *core.Ctx) core.Meta {
 	// R16.1 SEND-DISCIPLINE
 	RunProto(c, &ProtoCfg{
 		AllEffectsAfterSend: true,
-		RuleBase: "R16.1", Pkg: atPkg, FloorSends: 6,
+		RuleBase:            "R16.1", Pkg: atPkg, FloorSends: 6,
 		Effects: []Effect{
 			RetrieveEffect,
 			FieldWriteEffect("transactions-write", "Comp.transactions"),
